@@ -64,6 +64,8 @@ def _same_image(case, impl):
 
 
 def c16(case, impl):
+    if case["kind"] == "option" and case["fmt"] in ("max", "hrs") and "expect" in case:
+        return _same_image(case, impl)      # options that select where the picture starts: the same pixels whatever their combination
     if case["kind"] != "valid" or is_compressed(case):
         return None
     return _same_image(case, impl)
